@@ -27,6 +27,11 @@ ANY_GRID = ('Apodizer', 'PhaseApodizer', 'SurfaceApodizer', 'Magnifier', 'JonesM
             'LinearRetarder', 'LinearPolarizer', 'TiltElement')
 
 
+def model_pair(a, b):
+    """`Cache.pair` of the model (Model/Cache.lean): the id `gridKey` gives the grid (coordinate id, weights id)."""
+    return b * b + a if a < b else a * a + a + b
+
+
 def wl_key(wl):
     return int(np.round(np.log(wl) / np.log(1 + 1e-9)))
 
@@ -223,7 +228,24 @@ def specs():
                   P, P, grid_dep=None, skip={'numerical_aperture': 'alias of NA (same property object)'}))
     S.append(Spec('VectorVortexCoronagraph',
                   lambda v: hp.VectorVortexCoronagraph(2, None, v['phase_retardation'], q=8, scaling_factor=4, window_size=8),
-                  {'phase_retardation': [np.pi]}, [P[0], P[1], P[3], P[4]], [P[0], P[1], P[3], P[4]], pol=(0, 1, 2)))
+                  {'phase_retardation': [np.pi]}, [P[0], P[1], P[3], P[4]], [P[0], P[1], P[3], P[4]], pol=(0, 1, 2), dtypes=cplx))
+    # parameters that have no public setter, given as callables of the wavelength / of grid and wavelength at construction
+    def w_ret2(wavelength):
+        return np.pi * 0.75 / wavelength
+
+    def gw_jones(grid, wavelength):
+        one = np.ones(grid.size)
+        return Field(np.array([[one, 0.5j * grid.x / wavelength], [0.25 * grid.y * wavelength, one * (1 - 0.5j)]]), grid)
+
+    def w_jones(wavelength):
+        return np.array([[1.0, 0.5j / wavelength], [0.25 * wavelength, 1 - 0.5j]])
+    S.append(Spec('VectorVortexCoronagraph-chromatic',
+                  lambda v: hp.VectorVortexCoronagraph(2, None, v['phase_retardation'], q=8, scaling_factor=4, window_size=8),
+                  {'phase_retardation': [w_ret2]}, [P[0], P[1], P[3], P[4]], [P[0], P[1], P[3], P[4]], pol=(0, 1, 2), dtypes=cplx))
+    S.append(Spec('JonesMatrixOpticalElement-chromatic', lambda v: hp.JonesMatrixOpticalElement(v['jones_matrix']),
+                  {'jones_matrix': [gw_jones]}, PN, PN, pol=(0, 1, 2), dtypes=cplx))
+    S.append(Spec('JonesMatrixOpticalElement-chromatic-const', lambda v: hp.JonesMatrixOpticalElement(v['jones_matrix']),
+                  {'jones_matrix': [w_jones]}, PN, PN, pol=(0, 1, 2)))
     for sp in S:
         if sp.name.split('-')[0] in ANY_GRID:
             sp.any_grid = True
@@ -257,6 +279,15 @@ def uncovered_classes():
 # ---------------------------------------------------------------------------------------------
 # running one history on the real code
 
+def read_flags(el):
+    """(grid_dependent, wavelength_dependent) as the element stores them.  (`AgnosticOpticalElement.__getattr__` answers any
+    unknown name with a function, so a renamed private field does not raise: the value must be a boolean.)"""
+    g, w = el._grid_dependent, el._wavelength_dependent
+    if not isinstance(g, (bool, np.bool_)) or not isinstance(w, (bool, np.bool_)):
+        raise ValueError('_grid_dependent/_wavelength_dependent are not booleans: %r, %r' % (type(g).__name__, type(w).__name__))
+    return bool(g), bool(w)
+
+
 def make_wavefront(grid, wl, dtype, pol, seed):
     import hcipy as hp
     r = np.random.default_rng(seed)
@@ -282,6 +313,9 @@ def compare_wavefronts(a, b, tol):
         return 'shapes differ: %s vs %s' % (ea.shape, eb.shape)
     if hash(a.electric_field.grid) != hash(b.electric_field.grid):
         return 'output grids differ'
+    dw = weights_differ(a.electric_field.grid, b.electric_field.grid)
+    if dw:
+        return dw
     if a.wavelength != b.wavelength:
         return 'wavelengths differ'
     scale = max(1.0, float(np.max(np.abs(eb))) if eb.size else 1.0)
@@ -298,7 +332,9 @@ def compare_values(a, b, tol):
         return None if a is b else 'None vs value'
     import hcipy as hp
     if isinstance(a, hp.Grid) or isinstance(b, hp.Grid):
-        return None if (isinstance(a, hp.Grid) and isinstance(b, hp.Grid) and hash(a) == hash(b)) else 'grids differ'
+        if not (isinstance(a, hp.Grid) and isinstance(b, hp.Grid) and hash(a) == hash(b)):
+            return 'grids differ'
+        return weights_differ(a, b)
     try:
         xa, xb = np.asarray(a), np.asarray(b)
     except Exception:
@@ -338,6 +374,34 @@ def compare_instances(a, b, grid_dep):
     return None
 
 
+def owned_fourier(obj, depth=0, seen=None):
+    """The Fourier objects an instance owns: reachable through attributes, lists, dicts and the cached instances of
+    nested agnostic elements (VectorVortexCoronagraph owns propagators that own Fourier transforms)."""
+    import hcipy as hp
+    if seen is None:
+        seen = set()
+    out = []
+    if obj is None or depth > 6 or id(obj) in seen or isinstance(obj, (np.ndarray, np.generic, hp.Grid, str, bytes, int, float, complex)):
+        return out
+    seen.add(id(obj))
+    if isinstance(obj, (list, tuple)):
+        for x in obj:
+            out += owned_fourier(x, depth + 1, seen)
+        return out
+    if isinstance(obj, dict):
+        for x in obj.values():
+            out += owned_fourier(x, depth + 1, seen)
+        return out
+    mod = getattr(type(obj), '__module__', '') or ''
+    if not mod.startswith('hcipy.'):
+        return out
+    if mod.startswith('hcipy.fourier'):
+        out.append(obj)
+    for x in list(getattr(obj, '__dict__', {}).values()):
+        out += owned_fourier(x, depth + 1, seen)
+    return out
+
+
 def near_grid(g, kind, eps):
     """A grid that differs from the regular grid `g` by a relative `eps` in its spacing ('delta'), its
     origin ('zero') or one single coordinate ('coord', separated coordinates); eps = 0: an equal copy."""
@@ -351,7 +415,53 @@ def near_grid(g, kind, eps):
         sc = [np.array(c, dtype=float).copy() for c in g.separated_coords]
         sc[0][1] += eps * ext
         return hp.CartesianGrid(hp.SeparatedCoords(sc))
+    if kind == 'weights':
+        # equal coordinates (the grids compare and hash equal), other weights: `eps` names the variant
+        b = g.copy()
+        b.weights = weights_variant(g, int(eps))
+        return b
     raise MachineryError('unknown near-grid kind %r' % (kind,))
+
+
+WEIGHT_VARIANTS = [1, 2, 3, 4, 5]
+
+
+def weights_variant(g, variant):
+    """Explicit weights for a grid with the coordinates of `g`: 1 = ones per point ("count pixels"), 2 = a scalar twice
+    the automatic cell area, 3 = a smooth per-point variation of the cell area, 4 = the automatic weights written out as
+    an explicit array (another representation of the same weights), 5 = half the cell area per point."""
+    auto = np.asarray(g.copy().weights, dtype=float)
+    if variant == 1:
+        return np.ones(g.size)
+    if variant == 2:
+        return np.float64(np.mean(auto) * 2.0)      # (a plain Python float makes MatrixFourierTransform raise: .astype)
+    if variant == 3:
+        ext = float(np.max(np.abs(g.x))) or 1.0
+        return (auto * np.ones(g.size)) * (1.0 + 0.5 * np.asarray(g.x) / ext)
+    if variant == 4:
+        return auto * np.ones(g.size)
+    if variant == 5:
+        return 0.5 * auto * np.ones(g.size)
+    raise MachineryError('unknown weights variant %r' % (variant,))
+
+
+def weights_digest(grid):
+    """What distinguishes two grids with equal coordinates: their weights (shape and values)."""
+    w = np.ascontiguousarray(grid.weights, dtype=float) + 0.0
+    return (w.shape, w.tobytes())
+
+
+def weights_differ(a, b):
+    """None if the weights of two grids of equal size describe the same cell areas, else a description."""
+    wa = np.asarray(a.weights, dtype=float) * np.ones(a.size)
+    wb = np.asarray(b.weights, dtype=float) * np.ones(b.size)
+    if wa.shape != wb.shape:
+        return 'weights of the output grids have different shapes'
+    scale = max(float(np.max(np.abs(wb))), 1e-300)
+    err = float(np.max(np.abs(wa - wb)))
+    if err > 1e-9 * scale:
+        return 'weights of the output grids differ: max abs error %.3g (scale %.3g)' % (err, scale)
+    return None
 
 
 class Hist:
@@ -380,8 +490,7 @@ class Hist:
         if self.elem is not None:
             # private flags, read from outside; fall back to the declared ones
             try:
-                self.grid_dep = bool(self.elem._grid_dependent)
-                self.wl_dep = bool(self.elem._wavelength_dependent)
+                self.grid_dep, self.wl_dep = read_flags(self.elem)
             except Exception as e:
                 self.state_issue('cannot read _grid_dependent/_wavelength_dependent: %r' % (e,))
             try:
@@ -400,7 +509,11 @@ class Hist:
                 self.elem.get_instance_data = rec
             except Exception as e:
                 self.state_issue('cannot wrap get_instance_data: %r' % (e,))
-        self.gid = {}
+        self.gid = {}            # (coordinate id, weights id) -> model grid id
+        self.cid = {}            # hash(grid) -> coordinate id
+        self.wgt = {}            # weights digest -> weights id
+        self.kid = {}            # key part the code uses for a grid -> (coordinate id, weights id)
+        self.key_unreadable = False
         self.wid = {wl_key(w): k for k, w in enumerate(WLS)}
         if len(self.wid) != len(WLS):
             raise MachineryError('wavelength keys collide')
@@ -412,6 +525,7 @@ class Hist:
         self.counts = {}
         self.pending_setter = None
         self.cell_prev = {}      # instance index -> the transfer-function object its FourierFilter held after its last use
+        self.fourier_seen = {}   # id of an owned Fourier object -> [type name, precisions it was used with, the object]
 
     def count(self, k):
         self.counts[k] = self.counts.get(k, 0) + 1
@@ -419,17 +533,65 @@ class Hist:
     def state_issue(self, msg):
         self.state_issues.append(msg)
 
+    def grid_ids(self, grid):
+        """(coordinate id, weights id) of a grid: what `==`/`hash` see and what they ignore."""
+        hc = hash(grid)
+        if hc not in self.cid:
+            self.cid[hc] = len(self.cid) + 1
+        hw = weights_digest(grid)
+        if hw not in self.wgt:
+            self.wgt[hw] = len(self.wgt) + 1
+        ids = (self.cid[hc], self.wgt[hw])
+        if ids not in self.gid:
+            self.gid[ids] = model_pair(*ids)
+            if len([1 for x in self.gid if x[0] == ids[0]]) > 1:
+                self.count('grid-equal-coordinates-other-weights')
+            self.learn_key_part(grid, ids)
+        return ids
+
+    def learn_key_part(self, grid, ids):
+        """Which key part the code under test uses for this grid (observed through `_get_cache_keys`; falls back to
+        `hash(grid)` when that cannot be read).  Two different grids under one key part: the key does not cover what
+        distinguishes them -- recorded, the oracle decides whether results are wrong."""
+        if not self.grid_dep:
+            return
+        kp = None
+        try:
+            ks = self.elem._get_cache_keys(grid, None, WLS[0] if self.wl_dep else None)
+            k = ks[0]
+            if not isinstance(k, tuple) or len(k) != 3 or k[0] is None or k[1] is not None:
+                raise ValueError('unexpected forward key %r' % (k,))
+            kp = k[0]
+            hash(kp)
+        except Exception as e:
+            if not self.key_unreadable:
+                self.state_issue('cannot read the key part of a grid through _get_cache_keys: %r' % (e,))
+            self.key_unreadable = True
+            kp = hash(grid)
+        if kp in self.kid and self.kid[kp] != ids:
+            a = self.kid[kp]
+            what = 'weights' if a[0] == ids[0] else 'coordinates'
+            self.state_issue('the cache key does not distinguish grid %d.%d from grid %d.%d (they differ in their %s)'
+                             % (a + ids + (what,)))
+            self.count('key-collision:' + what)
+            return
+        self.kid[kp] = ids
+
     def G(self, grid):
+        """The id under which the model's cache sees the grid (`gridKey`), as printed in keys and cache contents."""
         if grid is None:
             return '-'
-        h = hash(grid)
-        if h not in self.gid:
-            self.gid[h] = len(self.gid) + 1
-        return str(self.gid[h])
+        return str(self.gid[self.grid_ids(grid)])
+
+    def Gq(self, grid):
+        """A grid as argument of a model request: `<coordinate id>.<weights id>`."""
+        if grid is None:
+            return '-'
+        return '%d.%d' % self.grid_ids(grid)
 
     def gname(self, h):
         try:
-            return '-' if h is None else str(self.gid.get(h, '?'))
+            return '-' if h is None else (str(self.gid[self.kid[h]]) if h in self.kid else '?')
         except TypeError:
             return '?'
 
@@ -480,10 +642,10 @@ class Hist:
         ii = gi
         if gi is None and go is not None:
             ii = fresh.get_input_grid(go, wl)
-            ri = self.G(ii)
+            ri = self.Gq(ii)
         if go is None and ii is not None:
-            ro = self.G(fresh.get_output_grid(ii, wl))
-        return 'C05 req %s %s %s %s %s' % (self.G(gi), self.G(go), a, ri, ro)
+            ro = self.Gq(fresh.get_output_grid(ii, wl))
+        return 'C05 req %s %s %s %s %s' % (self.Gq(gi), self.Gq(go), a, ri, ro)
 
     def observe(self, line, status, nhanded0, dt=None):
         obs = {'status': status}
@@ -574,6 +736,8 @@ class Hist:
                         target.rotate(float(arg))
                     elif how == 'reverse':
                         target.reverse()
+                    elif how == 'weights':
+                        target.weights = weights_variant(target, int(arg))
                     else:
                         raise MachineryError('unknown in-place operation %r' % (how,))
                 except MachineryError:
@@ -634,6 +798,14 @@ class Hist:
                 if d:
                     self.fail('result-differs', '%s on grid #%d at wavelength %r: %s' % (kind, g, wl, d), step)
                 self.pending_setter = None
+                if len(self.handed) > n0:
+                    # which Fourier objects does the instance handed out own, and which precisions has each seen
+                    try:
+                        for fo in owned_fourier(self.handed[n0]):
+                            rec = self.fourier_seen.setdefault(id(fo), [type(fo).__name__, set(), fo])
+                            rec[1].add(CPLX_TAG[dt])
+                    except Exception as e:
+                        self.state_issue('cannot walk the Fourier objects of the instance handed out: %r' % (e,))
                 self.observe(line, 'ok', n0, dt=dt)
                 if d:
                     return
@@ -728,9 +900,20 @@ def gen_case(rng, spec, el_setters, big):
         for _ in range(int(rng.integers(2, 6)) if style == 'near' else 1):
             eps = NEAR_EPS[int(rng.integers(0, len(NEAR_EPS)))] if style == 'near' else 0.0
             near.append([base, str(rng.choice(kinds)) if eps else 'delta', eps])
+    # every style: grids that equal a grid of the working set in their coordinates (`==`, `hash`) and differ in what
+    # equality ignores -- their weights
+    if style == 'near' or rng.random() < 0.6:
+        for _ in range(int(rng.integers(1, 3))):
+            near.append([fsel[0], 'weights', int(rng.choice(WEIGHT_VARIANTS))])
+    if near:
+        base = fsel[0]
         extra = [len(spec.fwd) + k for k in range(len(near))]
-        fsel = [base] + extra + fsel[1:2]
-        bsel = [base] + extra + bsel[:1]
+        if style in ('near', 'mutate'):
+            fsel = [base] + extra + fsel[1:2]
+            bsel = [base] + extra + bsel[:1]
+        else:
+            fsel = [base] + extra + fsel[1:]
+            bsel = [base] + extra + [b for b in bsel if b != base]
     for _ in range(n):
         r = rng.random()
         dt = str(rng.choice(spec.dtypes))
@@ -740,9 +923,9 @@ def gen_case(rng, spec, el_setters, big):
         p_both = 0.3 if style == 'both' else 0.08
         p_mut = 0.2 if style == 'mutate' else (0.03 if style == 'mixed' else 0.0)
         if rng.random() < p_mut:
-            hows = ['scale', 'shift'] + (['rotate', 'reverse'] if spec.any_grid else [])
+            hows = ['scale', 'shift', 'weights'] + (['rotate', 'reverse'] if spec.any_grid else [])
             how = str(rng.choice(hows))
-            arg = {'scale': float(rng.choice([2.0, 0.5, 1.5, 0.75])),
+            arg = {'scale': float(rng.choice([2.0, 0.5, 1.5, 0.75])), 'weights': int(rng.choice(WEIGHT_VARIANTS)),
                    'shift': [float(rng.integers(-4, 5)) / 8.0, float(rng.integers(-4, 5)) / 16.0],
                    'rotate': float(rng.integers(1, 8)) / 8.0, 'reverse': None}[how]
             # mostly a grid of the working set that is a pool grid (not a near variant)
@@ -767,7 +950,7 @@ def gen_case(rng, spec, el_setters, big):
                 w = int(rng.choice(wsel))
             else:
                 # favour a small working set (two grids, one wavelength) so that hits are frequent
-                k_work = len(near) + 2 if style in ('near', 'mutate') else 2
+                k_work = len(near) + 2
                 g = int(pool[int(rng.integers(0, min(k_work, len(pool))))]) if rng.random() < 0.7 else int(rng.choice(pool))
                 w = int(wsel[0]) if rng.random() < (0.9 if style in ('near', 'mutate') else 0.7) else int(rng.choice(wsel))
             ops.append(['bwd' if back else 'fwd', g, w, dt, int(pol), seed])
@@ -812,6 +995,27 @@ def directed():
             fam.append([0, 'coord', 1e-6])
         D.append({'spec': name, 'maxN': None, 'style': 'directed', 'near': fam,
                   'ops': [fw(0)] + [fw(N + k) for k in range(len(fam))] + [bw(N), bw(0), fw(N + 1), fw(0)]})
+    # grids with equal coordinates and other weights (ones per point, a per-point variation, the automatic weights as an
+    # explicit array), then the weights of a grid object are changed in place -- through every element
+    for sp in specs():
+        N = len(sp.fwd)
+        D.append({'spec': sp.name, 'maxN': None, 'style': 'directed-weights',
+                  'near': [[0, 'weights', 1], [0, 'weights', 3], [0, 'weights', 4]],
+                  'ops': [fw(0), fw(N), fw(N + 1), fw(N + 2), bw(N), bw(0), bw(N + 1), fw(0), mut(0, 'weights', 5), fw(0), fw(N),
+                          mut(N, 'weights', 2, 1), bw(N), fw(N + 1)]})
+    # one instance (one grid, one wavelength), precision flipped back and forth in both directions and for every kind of
+    # wavefront: every Fourier object the instance owns (MFT matrices + intermediate array, FFT scratch array, filter
+    # transfer function + internal array, the nested propagators of the vector vortex) sees both precisions
+    for name, gs in (('FraunhoferPropagator', (0, 4)), ('FresnelPropagator', (0,)), ('AngularSpectrumPropagator', (1,)),
+                     ('VectorVortexCoronagraph', (0,))):
+        for g in gs:
+            ops = []
+            for pol in (0, 1, 2):
+                for kdir in (fw, bw):
+                    gg = g if (kdir is fw or name != 'FraunhoferPropagator') else F0
+                    ops += [kdir(gg, 0, 'complex128', pol, 11 + pol), kdir(gg, 0, 'complex64', pol, 12 + pol),
+                            kdir(gg, 0, 'complex128', pol, 13 + pol), kdir(gg, 0, 'complex64', pol, 14 + pol)]
+            D.append({'spec': name, 'maxN': None, 'style': 'directed-precision', 'ops': ops})
     # default cache size overflow: 4 grids x 3 wavelengths = 12 > 11 instances
     ov = [fw(g, w) for w in range(3) for g in range(4)]
     D.append({'spec': 'Apodizer', 'maxN': None, 'style': 'directed', 'ops': ov + ov[:3] + [bw(0), bw(1, 2)]})
@@ -890,6 +1094,11 @@ def random_fft_names(rng, n):
         dims = [int(rng.integers(3, 9)), int(rng.integers(3, 9))]
         q = [qs[int(rng.integers(0, len(qs)))] for _ in range(2)]
         fov = [fovs[int(rng.integers(0, len(fovs)))] for _ in range(2)]
+        for k in range(2):
+            # a Fourier plane without a single sample along an axis (dims * q * fov < 1) is no Fourier object an element
+            # can own (the constructor raises IndexError there: noted in the report, FFT construction is C01's subject)
+            if dims[k] * q[k] * fov[k] < 1:
+                fov[k] = 1
         out.append(gen_fft_name(dims, q, fov, bool(rng.integers(0, 2))))
     return out
 
@@ -988,11 +1197,13 @@ def check_wavelength_keys(ctx):
     import hcipy as hp
     from fractions import Fraction
     if Fraction(1 + 1e-9) != 1 + Fraction(4503600, 2 ** 52):
-        raise MachineryError('1 + 1e-9 is not the double assumed by theorem base_double_ok')
+        raise MachineryError('1 + 1e-9 is not the double the model executes (Cache.wlBase, theorem wlBase_ok)')
     probe = hp.Magnifier(2.0)
+    probe_grid = hp.make_pupil_grid(4, 1.0)
 
     def real_key(lam):
-        k = probe._get_cache_keys(None, None, lam)      # private: guarded by the caller
+        k = probe._get_cache_keys(probe_grid, None, lam)      # private: guarded by the caller (a grid is given: the key's
+        # wavelength part must not depend on how the element declares its grid dependence)
         if not (isinstance(k, list) and k and isinstance(k[0], tuple) and len(k[0]) == 3):
             raise ValueError('unexpected key shape %r' % (k,))
         return int(k[0][2])
@@ -1003,6 +1214,8 @@ def check_wavelength_keys(ctx):
     n = ctx.scale(3000, 40000)
     n_inst = ctx.scale(300, 3000)
     issues = 0
+    n_diff = ctx.scale(400, 5000)
+    diff_lines, diff_expect = [], []
     for j in range(n):
         style = j % 4
         if style == 0:
@@ -1049,6 +1262,14 @@ def check_wavelength_keys(ctx):
                 ctx.disagree('wavelength-key', {'theorem': 'wavelength_key_shared_close', 'wavelengths': [lam, three],
                                                 'keys': [keys['lam'], keys['three']]})
             ctx.count('wl:key-difference-at-1e-9:%d' % (keys['nine'] - keys['lam']))
+            # the executed rational enclosure of key differences (Cache.wlKeyDiffBounds; theorem wavelength_key_diff_enclosed)
+            if j < n_diff:
+                for name, v in (('far', far), ('near', near), ('nine', nine), ('three', three)):
+                    lo_w, hi_w = (lam, v) if v >= lam else (v, lam)
+                    sign = 1 if v >= lam else -1
+                    fa, fb = Fraction(lo_w), Fraction(hi_w)
+                    diff_lines.append('C05 wldiff %d/%d %d/%d' % (fa.numerator, fa.denominator, fb.numerator, fb.denominator))
+                    diff_expect.append((lam, v, sign * (keys[name] - keys['lam'])))
         # the property's clause on the public interface: wavelengths >= 1e-6 apart never share an instance
         if j < n_inst:
             ctx.case(None, nontrivial_key=('wl-pair', j))
@@ -1071,6 +1292,25 @@ def check_wavelength_keys(ctx):
             if bad:
                 ctx.violation('wavelengths-1e-6-apart-share-instance', 'wavelengths %r and %r (ratio >= 1 + 1e-6): %s' % (lam, far, bad),
                               {'wavelengths': [lam, far]})
+    compare_key_differences(ctx, diff_lines, diff_expect)
+
+
+def compare_key_differences(ctx, diff_lines, diff_expect):
+    from fractions import Fraction
+    out = ctx.model(diff_lines)
+    for line, resp, (a, b, d) in zip(diff_lines, out, diff_expect):
+        ctx.traces_validated += 1
+        m = parse_model(resp) if resp.startswith('ok') else {}
+        try:
+            lo, hi = Fraction(m['lo']), Fraction(m['hi'])
+        except Exception:
+            ctx.disagree('wavelength-key', {'line': line, 'model': resp, 'issue': 'no enclosure returned'})
+            break
+        ctx.count('wl:enclosure-width<=%s' % ('2.5' if hi - lo <= Fraction(5, 2) else ('4' if hi - lo <= 4 else 'more')))
+        if not (lo <= d <= hi):
+            ctx.disagree('wavelength-key', {'theorem': 'wavelength_key_diff_enclosed', 'wavelengths': [a, b], 'code key difference': d,
+                                            'model enclosure': [float(lo), float(hi)]})
+            break
 
 
 def replay_wavelengths(case):
@@ -1099,8 +1339,10 @@ DECO_NAMES = ['GW-mag', 'GW-lens', 'G-only', 'W-only', 'none']
 
 def deco_pool():
     import hcipy as hp
-    return [hp.make_pupil_grid(4, 1.0), hp.make_pupil_grid(4, 1.5), hp.make_pupil_grid(4, 1.0).shifted([0.25, -0.125]),
+    pool = [hp.make_pupil_grid(4, 1.0), hp.make_pupil_grid(4, 1.5), hp.make_pupil_grid(4, 1.0).shifted([0.25, -0.125]),
             hp.make_pupil_grid(6, 1.0), hp.make_pupil_grid([4, 6], [1.0, 1.5]), hp.make_pupil_grid(6, 2.5)]
+    # grids with the coordinates of pool grids 0 and 3 and other weights (ones per point; a per-point variation)
+    return pool + [near_grid(pool[0], 'weights', 1), near_grid(pool[3], 'weights', 3)]
 
 
 def deco_class(name, num):
@@ -1184,6 +1426,7 @@ def run_deco(case):
     pool grid j) | ['bwdout', j, w, seed] (backward on the output grid of the element for pool grid j) |
     ['get', i|None, o|None, w|None] (get_instance with pool grids).  Returns (bad, lines, expect, issues, counts)
     with bad = [(key, what, step)]."""
+    import hcipy as hp
     name, num = case['deco'], int(case['num'])
     cls, Gnostic, kw, gd, wd, out_of = deco_class(name, num)
     pool = deco_pool()
@@ -1210,14 +1453,25 @@ def run_deco(case):
         insts.append(v)
         return len(insts) - 1
 
+    def same_grid(x, g):
+        # `g`: the grid part of a private cache key -- a grid object (unrepaired: found through ==/hash, which ignore the
+        # weights) or the digest of coordinates and weights that repair D505 uses (`_get_grid_key`)
+        if isinstance(g, hp.Grid):
+            return x == g and weights_differ(x, g) is None
+        return key_part(x) == g
+
+    def key_part(x):
+        from hcipy.optics import optical_element as oe
+        return oe._get_grid_key(x) if hasattr(oe, '_get_grid_key') else hash(x)
+
     def gname(g):
         if g is None:
             return '-'
         for j, x in enumerate(pool):
-            if x == g:
+            if same_grid(x, g):
                 return str(j)
         for j, x in enumerate(outs):
-            if x is not None and x == g:
+            if x is not None and same_grid(x, g):
                 return str(100 + j)
         return '?'
 
@@ -1361,6 +1615,11 @@ def deco_directed():
     D.append({'deco': 'GW-mag', 'num': 1, 'ops': [['fwd', 0, 0, 1], ['fwd', 1, 0, 2], ['bwdout', 0, 0, 3], ['fwd', 0, 0, 4], ['bwdout', 0, 0, 5]]})
     D.append({'deco': 'G-only', 'num': 2, 'ops': [['get', None, None, 0], ['get', 0, 1, 0], ['fwd', 0, 1, 1], ['fwd', 0, 2, 2], ['bwdout', 0, 3, 3]]})
     D.append({'deco': 'GW-mag', 'num': 3, 'ops': [['get', 0, None, None], ['get', 0, None, 0], ['get', 0, None, 0], ['get', None, 0, 0]]})
+    # grids 6 / 7 have the coordinates of grids 0 / 3 and other weights: each needs its own element
+    D.append({'deco': 'GW-mag', 'num': 50, 'ops': [['fwd', 0, 0, 1], ['fwd', 6, 0, 2], ['bwdout', 6, 0, 3], ['bwdout', 0, 0, 4], ['fwd', 7, 0, 5],
+                                                   ['fwd', 3, 0, 6], ['get', 6, None, 0], ['get', 0, None, 0]]})
+    D.append({'deco': 'GW-lens', 'num': 2, 'ops': [['fwd', 0, 0, 1], ['fwd', 6, 0, 2], ['bwdout', 0, 0, 3], ['fwd', 3, 1, 4], ['fwd', 7, 1, 5]]})
+    D.append({'deco': 'G-only', 'num': 1, 'ops': [['fwd', 6, 0, 1], ['fwd', 0, 0, 2], ['fwd', 6, 0, 3]]})
     return D
 
 
@@ -1368,12 +1627,16 @@ def deco_gen(rng):
     name = DECO_NAMES[int(rng.integers(0, len(DECO_NAMES)))]
     num = [1, 2, 3, 50][int(rng.integers(0, 4))]
     n = int(rng.integers(3, 14))
-    ng = int(rng.integers(2, 7))
+    ng = int(rng.integers(2, 9))
     nw = int(rng.integers(1, 4))
+    sel = [int(x) for x in rng.permutation(8)[:ng]]
+    if rng.random() < 0.5:
+        # a grid and its twin with equal coordinates and other weights (pool 6 / 7) in one history
+        sel[:2] = [[0, 6], [3, 7]][int(rng.integers(0, 2))]
     ops = []
     for _ in range(n):
         u = rng.random()
-        j, w, seed = int(rng.integers(0, ng)), int(rng.integers(0, nw)), int(rng.integers(0, 1 << 30))
+        j, w, seed = sel[int(rng.integers(0, ng))], int(rng.integers(0, nw)), int(rng.integers(0, 1 << 30))
         if u < 0.5:
             ops.append(['fwd', j, w, seed])
         elif u < 0.75:
@@ -1381,7 +1644,7 @@ def deco_gen(rng):
         elif u < 0.9:
             ops.append(['bwd', j, w, seed])
         else:
-            c = [None, j][int(rng.integers(0, 2))], [None, int(rng.integers(0, ng))][int(rng.integers(0, 2))], [None, w][int(rng.integers(0, 4)) > 0]
+            c = [None, j][int(rng.integers(0, 2))], [None, sel[int(rng.integers(0, ng))]][int(rng.integers(0, 2))], [None, w][int(rng.integers(0, 4)) > 0]
             ops.append(['get', c[0], c[1], c[2]])
     return {'deco': name, 'num': num, 'ops': ops}
 
@@ -1631,6 +1894,235 @@ def check_scratch_load(ctx):
 
 # ---------------------------------------------------------------------------------------------
 
+# ---------------------------------------------------------------------------------------------
+# declared dependences: what make_instance reads (observed through recording proxies) vs what the cache key retains
+# (model: Cache.uncovered / Cache.shippedFamilies; theorems instance_determined_by_key, shipped_families_covered)
+
+DIM_CODE = {'coords': 0, 'weights': 1, 'wavelength': 2}
+FAMILIES = ['FraunhoferPropagator', 'FresnelPropagator', 'AngularSpectrumPropagator', 'Apodizer', 'JonesMatrixOpticalElement',
+            'StepIndexFiber', 'VectorVortexCoronagraph', 'Magnifier']
+
+
+def recording_grid(g, log, on):
+    """A copy of `g` (same class, so every isinstance / is_regular test behaves) that records which of its attributes
+    are read while `on[0]` is set: 'weights' for the weights, 'coords' for anything else.  Copies and grids derived
+    from it through its own methods keep recording."""
+    base = type(g)
+
+    class Rec(base):
+        def __getattribute__(self, name):
+            if on[0] and not (name.startswith('__') and name.endswith('__')):
+                log.add('weights' if name in ('weights', '_weights') else 'coords')
+            return base.__getattribute__(self, name)
+    r = g.copy()
+    r.__class__ = Rec
+    return r
+
+
+def recording_wavelength(wl, log, on):
+    """A float that records arithmetic, comparisons and NumPy ufuncs applied to it while `on[0]` is set."""
+    import operator
+
+    class RecFloat(float):
+        def __array_ufunc__(self, ufunc, method, *inputs, **kwargs):
+            if on[0]:
+                log.add('wavelength')
+            inputs = tuple(float(x) if isinstance(x, RecFloat) else x for x in inputs)
+            return getattr(ufunc, method)(*inputs, **kwargs)
+
+        def __hash__(self):
+            return float.__hash__(self)
+
+    def hook(opname, reverse):
+        fn = getattr(operator, opname)
+
+        def f(self, other):
+            if on[0]:
+                log.add('wavelength')
+            return fn(other, float(self)) if reverse else fn(float(self), other)
+        return f
+    for opname in ('add', 'sub', 'mul', 'truediv', 'pow', 'floordiv', 'mod'):
+        setattr(RecFloat, '__%s__' % opname, hook(opname, False))
+        setattr(RecFloat, '__r%s__' % opname, hook(opname, True))
+    for opname in ('lt', 'le', 'gt', 'ge', 'eq', 'ne'):
+        setattr(RecFloat, '__%s__' % opname, hook(opname, False))
+
+    def un(opname):
+        fn = getattr(operator, opname)
+
+        def f(self):
+            if on[0]:
+                log.add('wavelength')
+            return fn(float(self))
+        return f
+    for opname in ('neg', 'abs', 'pos'):
+        setattr(RecFloat, '__%s__' % opname, un(opname))
+    return RecFloat(wl)
+
+
+def observe_reads(spec, params):
+    """(grid_dependent, wavelength_dependent, key distinguishes weights, dimensions read by make_instance) observed on a
+    new element with the given parameter indices, for one forward and one backward request."""
+    el = spec.make(params)
+    gd, wd = read_flags(el)
+    log, on = set(), [False]
+    orig = el.make_instance
+
+    def mi(inst, i, o, w):
+        on[0] = True
+        try:
+            return orig(inst, i, o, w)
+        finally:
+            on[0] = False
+    el.make_instance = mi
+    calls = 0
+    errs = []
+    for back in (False, True):
+        g = recording_grid((spec.bwd if back else spec.fwd)[0], log, on)
+        w = recording_wavelength(WLS[0], log, on)
+        try:
+            inst = el.get_instance_data(None if back else g, g if back else None, w)
+            calls += 1
+        except Exception as e:
+            errs.append(repr(e))
+            continue
+        # a result that is handed one of the grid objects the instance holds carries that grid's coordinates and weights
+        try:
+            import hcipy as hp
+            r = (el.backward if back else el.forward)(make_wavefront(g, w, 'complex128', spec.pol[0], 3))
+            held = [v for v in vars(inst).values() if isinstance(v, hp.Grid)]
+            if hasattr(r, 'electric_field') and any(r.electric_field.grid is x for x in held):
+                log.update(('coords', 'weights'))
+        except Exception as e:
+            errs.append(repr(e))
+    if not calls:
+        raise ValueError('no request could be made with recording proxies: %s' % errs)
+    a = spec.fwd[0].copy()
+    b = a.copy()
+    b.weights = weights_variant(a, 1)
+    kw = True
+    if gd:
+        kw = el._get_cache_keys(a, None, WLS[0] if wd else None)[0] != el._get_cache_keys(b, None, WLS[0] if wd else None)[0]
+    return gd, wd, kw, sorted(log)
+
+
+def lost_dimension_history(spec, params, lost):
+    """A history whose requests differ in nothing but the dimensions the key loses."""
+    f = lambda g, w, sd: ['fwd', g, w, 'complex128', int(spec.pol[0]), sd]      # noqa: E731
+    b = lambda g, w, sd: ['bwd', g, w, 'complex128', int(spec.pol[0]), sd]      # noqa: E731
+    N = len(spec.fwd)
+    ops = [['set', n, i] for n, i in params.items() if i]
+    near = []
+    if 'weights' in lost:
+        near = [[0, 'weights', 1], [0, 'weights', 3]]
+        ops += [f(0, 0, 41), f(N, 0, 42), f(N + 1, 0, 43), b(N, 0, 44), b(0, 0, 45), f(0, 0, 46), ['both', N, N, 0], ['both', 0, 0, 0]]
+    if 'coords' in lost:
+        ops += [f(0, 0, 47), f(1, 0, 48), b(0, 0, 49), b(1, 0, 50), f(0, 0, 51)]
+    if 'wavelength' in lost:
+        ops += [f(0, 0, 52), f(0, 2, 53), b(0, 3, 54), f(0, 0, 55), b(0, 0, 56)]
+    return {'spec': spec.name, 'maxN': None, 'style': 'lost-dimension', 'near': near, 'ops': ops}
+
+
+def family_of(el):
+    for klass in type(el).__mro__:
+        if klass.__name__ in FAMILIES:
+            return klass.__name__
+    return None
+
+
+def check_declared_reads(ctx):
+    lines, expect = [], []
+    fams = {}
+    for spec in specs():
+        variants = [{n: 0 for n in spec.values}]
+        for n in spec.values:
+            for idx, val in enumerate(spec.values[n]):
+                if idx and callable(val) and n not in spec.post:
+                    variants.append(dict(variants[0], **{n: idx}))
+        for params in variants:
+            name = spec.name.split('-')[0]
+            try:
+                gd, wd, kw, reads = observe_reads(spec, params)
+            except Exception as e:       # unreadable internals: broken correspondence, the other oracles keep running
+                ctx.disagree('declared-reads', {'spec': spec.name, 'params': params, 'issue': 'cannot observe make_instance: %r' % (e,)})
+                continue
+            ctx.count('reads:%s:%s' % (name, '+'.join(reads) or 'nothing'))
+            covered = {'coords': gd, 'weights': gd and kw, 'wavelength': wd}
+            lost = [d for d in reads if not covered[d]]
+            ctx.case(None, nontrivial_key=('reads', spec.name, json.dumps(params, sort_keys=True)) if reads else None)
+            if lost:
+                # a structural finding; it becomes a violation of the property only with a history on which the shared
+                # element differs from a fresh one -- requests that differ in nothing but the lost dimensions
+                what = ('%s.make_instance reads the %s of the request, which the instance cache key does not retain '
+                        '(grid_dependent=%s, wavelength_dependent=%s, key distinguishes weights: %s)'
+                        % (name, ' and the '.join(lost), gd, wd, kw))
+                hist = lost_dimension_history(spec, params, lost)
+                h = Hist(spec, hist)
+                try:
+                    h.run()
+                except MachineryError:
+                    raise
+                except Exception as e:
+                    h.state_issue('unexpected %s: %s' % (type(e).__name__, e))
+                if h.bad:
+                    key, w2, step = h.bad[0]
+                    small = dict(hist)
+                    small['ops'] = hist['ops'][:step + 1]
+                    ctx.violation('undeclared-dependence %s' % name, '%s: two requests that differ there share one instance -- %s'
+                                  % (what, w2), small)
+                else:
+                    ctx.count('uncovered-read-without-visible-effect:%s' % name)
+                    ctx.disagree('declared-reads', {'spec': spec.name, 'params': params, 'issue': what + '; no history showed an effect'})
+            lines.append('C05 covers %d %d [%s]' % (gd, wd, ','.join(str(DIM_CODE[d]) for d in reads)))
+            expect.append(('covers', spec.name, 'ok uncovered=[%s]' % ','.join(str(DIM_CODE[d]) for d in lost)))
+            try:
+                fam = family_of(spec.make(params))
+            except Exception:
+                fam = None
+            if fam is None:
+                ctx.disagree('family-table', {'spec': spec.name, 'issue': 'no shipped family (Cache.shippedFamilies) in the MRO'})
+                continue
+            fams.setdefault(fam, []).append((spec.name, gd, wd, reads))
+    for fam, rows in sorted(fams.items()):
+        lines.append('C05 family %s' % fam)
+        expect.append(('family', fam, rows))
+    out = ctx.model(lines)
+    for line, resp, exp in zip(lines, out, expect):
+        ctx.traces_validated += 1
+        if exp[0] == 'covers':
+            if resp != exp[2]:
+                ctx.disagree('declared-reads', {'spec': exp[1], 'line': line, 'code': exp[2], 'model': resp})
+            continue
+        m = parse_model(resp) if resp.startswith('ok') else {}
+        try:
+            declared = set(json.loads(m.get('reads', 'null')) or [])
+        except Exception:
+            declared = None
+        for sname, gd, wd, reads in exp[2]:
+            bad = []
+            if declared is None or m.get('uncovered') != '[]':
+                bad.append('row unreadable or not covered: %r' % (resp,))
+            else:
+                if m.get('grid') != str(int(gd)) or m.get('wl') != str(int(wd)):
+                    bad.append('flags: code grid=%d wl=%d, table grid=%s wl=%s' % (gd, wd, m.get('grid'), m.get('wl')))
+                extra = [d for d in reads if DIM_CODE[d] not in declared]
+                if extra:
+                    bad.append('make_instance reads %s, the table does not list it' % extra)
+            if bad:
+                ctx.disagree('family-table', {'family': exp[1], 'spec': sname, 'issues': bad})
+                break
+
+
+def replay_reads(case):
+    spec = spec_by_name(case['reads'])
+    gd, wd, kw, reads = observe_reads(spec, case['params'])
+    covered = {'coords': gd, 'weights': gd and kw, 'wavelength': wd}
+    lost = [d for d in reads if not covered[d]]
+    if lost:
+        print('  fails: make_instance reads %s; the key retains %s' % (reads, sorted(d for d in covered if covered[d])))
+    return not lost
+
+
 def check_case(ctx, case, lines_out):
     spec = spec_by_name(case['spec'])
     h = Hist(spec, case)
@@ -1677,7 +2169,8 @@ def compare_with_model(ctx, batch):
             if 'how' in m:
                 ctx.count('how:' + m['how'])
             if diffs:
-                ctx.disagree('C05 cache', {'spec': case['spec'], 'maxN': case['maxN'], 'ops': case['ops'][:k], 'line': line,
+                ctx.disagree('C05 cache', {'spec': case['spec'], 'maxN': case['maxN'], 'near': case.get('near', []),
+                                           'ops': case['ops'][:k], 'line': line,
                                            'diffs': diffs})
                 break
         pos += len(lines)
@@ -1694,7 +2187,8 @@ def run(ctx):
                 'and one creation; distinct by (element, style, maxN, #ops, #distinct requests). Fourier objects: shared vs '
                 'fresh object on random forward/backward histories with alternating dtypes and tensor shapes.')
     ctx.assumptions += ['xxhash of distinct test grids does not collide',
-                        'Grid.__hash__ ignores weights (C10); all test grids carry default weights']
+                        'Grid.__eq__/__hash__ ignore weights (C10); the test grids carry automatic and explicit weights (scalar '
+                        'and per point), the instance cache key is expected to distinguish them']
     un = uncovered_classes()
     ctx.extra['agnostic_classes_not_covered'] = un
     if un:
@@ -1726,7 +2220,7 @@ def run(ctx):
     cases = directed()
     per = ctx.scale(24, 400)
     for spec in specs():
-        k = per if spec.name != 'VectorVortexCoronagraph' else max(2, per // 4)
+        k = per if spec.name.split('-')[0] != 'VectorVortexCoronagraph' else max(2, per // 4)
         for j in range(k):
             cases.append(gen_case(ctx.rng, spec, setters[spec.name], big=(ctx.tier == 'thorough' and j % 4 == 0)))
     # every setter at least once, right after use
@@ -1737,7 +2231,21 @@ def run(ctx):
                               'ops': [['fwd', 0, 0, 'complex128', 0, 5], ['bwd', 0, 0, 'complex128', 0, 6], ['set', n, idx],
                                       ['fwd', 0, 0, 'complex128', 0, 5], ['bwd', 0, 0, 'complex128', 0, 6],
                                       ] + ([['set', n, 0], ['fwd', 0, 0, 'complex128', 0, 5]] if n not in spec.post else [])})
+    # every parameter value that is a callable (of the grid, of the wavelength, of both) x several wavelengths and grids on
+    # one object, in both directions, revisiting earlier combinations
+    for spec in specs():
+        for n in spec.values:
+            for idx, val in enumerate(spec.values[n]):
+                if not callable(val) or (idx and n not in setters[spec.name]):
+                    continue
+                f = lambda g, w, sd: ['fwd', g, w, 'complex128', 0, sd]      # noqa: E731
+                b = lambda g, w, sd: ['bwd', g, w, 'complex128', 0, sd]      # noqa: E731
+                ops = ([['set', n, idx]] if idx else []) + [f(0, 0, 21), f(0, 2, 22), f(0, 1, 23), b(0, 2, 24), f(1, 3, 25), f(0, 3, 26),
+                                                            b(1, 0, 27), f(0, 4, 28), f(0, 2, 29), b(0, 0, 30), f(1, 2, 31), f(0, 0, 32)]
+                cases.append({'spec': spec.name, 'maxN': [None, 2][(idx + len(n)) % 2], 'style': 'callable-parameter', 'ops': ops})
+                ctx.count('callable-parameter:%s.%s' % (spec.name, n))
     batch = []
+    owned = {}       # (element, type of an owned Fourier object) -> [objects seen, objects used with both precisions]
     for case in cases:
         h = check_case(ctx, case, batch)
         reqs = set(tuple(op[:3]) for op in case['ops'] if op[0] in ('fwd', 'bwd', 'both'))
@@ -1746,6 +2254,16 @@ def run(ctx):
         ctx.count('style:' + case['style'])
         ctx.count('maxN:%s' % case['maxN'])
         ctx.count('instances_created', len(h.insts))
+        if any(n[1] == 'weights' for n in case.get('near', [])) or any(op[0] == 'mut' and op[2] == 'weights' for op in case['ops']):
+            ctx.count('histories_with_grids_differing_in_weights_only')
+        for k2, v2 in h.counts.items():
+            if k2.startswith(('grid-equal-coordinates', 'key-collision')):
+                ctx.count(k2, v2)
+        for tname, tags, _ in h.fourier_seen.values():
+            owned.setdefault((case['spec'], tname), [0, 0])
+            owned[(case['spec'], tname)][0] += 1
+            if len(tags) > 1:
+                owned[(case['spec'], tname)][1] += 1
         fw_set = set((op[1], op[2]) for op in case['ops'] if op[0] == 'fwd')
         bw_set = set((op[1], op[2]) for op in case['ops'] if op[0] == 'bwd')
         if fw_set & bw_set:
@@ -1756,6 +2274,10 @@ def run(ctx):
         ctx.case({'spec': case['spec'], 'maxN': case['maxN'], 'ops': case['ops'][:6]} if nontrivial else None,
                  nontrivial_key=(case['spec'], case['style'], case['maxN'], len(case['ops']), len(reqs)) if nontrivial else None)
     compare_with_model(ctx, batch)
+    # every kind of Fourier object an element owns must have been driven with both precisions on one instance
+    ctx.extra['owned_fourier_objects'] = {'%s:%s' % k: {'objects': v[0], 'used_with_both_precisions': v[1]} for k, v in sorted(owned.items())}
+    lacking = ['%s:%s' % k for k, v in sorted(owned.items()) if v[1] == 0]
+    ctx.extra['owned_fourier_objects_never_flipped'] = lacking
 
     check_wavelength_keys(ctx)
 
@@ -1835,6 +2357,11 @@ def run(ctx):
                 break
     check_scratch_load(ctx)
     check_decorator(ctx)
+    check_declared_reads(ctx)
+    # generator coverage (last, so that every oracle has run): a kind of Fourier object an element owns that no history
+    # drove with both precisions on one instance is a gap of this machinery -- unless violations cut the histories short
+    if lacking and not ctx.violations:
+        raise MachineryError('no history used these owned Fourier objects with both precisions on one instance: %s' % lacking)
 
 
 def replay(ctx, case):
@@ -1846,6 +2373,12 @@ def replay(ctx, case):
             return False
     if 'deco' in case:
         return replay_deco(case)
+    if 'reads' in case:
+        try:
+            return replay_reads(case)
+        except Exception as e:
+            print('  fails: raises %r' % (e,))
+            return False
     if 'czt' in case:
         bad, _, _ = run_czt(case['czt'])
         if bad:
